@@ -68,3 +68,47 @@ EQ_CONTRACTS = [
 NORMALIZED_CONTRACTS = [
     (re.compile(r'^BigDecimal::normalized$'), normalized_contract),
 ]
+
+
+# ---------------------------------------------------------------- digit counting / rounding term (decided for the real bodies by C18 / C07)
+DIGITS_MAX = [40]
+
+
+def _digit_count_fork(m, mag, what):
+    """fork over the number of decimal digits of the non-negative term mag (1 for zero); bound DIGITS_MAX"""
+    D = DIGITS_MAX[0]
+    if not is_sym(mag):
+        return len(str(mag))
+    k = m.choose_n(D + 1, lambda d: (mag >= 10 ** D) if d == D else (mag < 10 if d == 0 else z3.And(mag >= 10 ** d, mag < 10 ** (d + 1))))
+    if k == D:
+        raise E.BoundExceeded('%s: more than %d digits' % (what, D))
+    return k + 1
+
+
+def count_digits_contract(m, mo, args, tys, dty):
+    x = deref(args[0])
+    if isinstance(x, Agg):           # &BigDecimal / BigDecimalRef receiver
+        x = _dec_fields(x)[0]
+    mag = S.zabs(x)
+    return _digit_count_fork(m, mag, 'digits')
+
+
+def rounding_term_contract(m, mo, args, tys, dty):
+    """get_rounding_term(n) = 1 iff the leading decimal digit of n (> 0) is >= 5; 0 for 0; 1 for negative n (first comparison)"""
+    x = deref(args[0])
+    if m.branch_bool(x == 0):
+        return 0
+    if m.branch_bool(x < 0):
+        return 1        # `*num < n` holds at once for a negative argument
+    d = _digit_count_fork(m, x, 'get_rounding_term')
+    return 1 if m.branch_bool(x >= 5 * 10 ** (d - 1)) else 0
+
+
+DIGIT_CONTRACTS = [
+    (re.compile(r'^count_decimal_digits(_uint)?$'), count_digits_contract),
+    (re.compile(r'^BigDecimal::digits$'), count_digits_contract),
+    (re.compile(r'^BigDecimalRef::count_digits$'), count_digits_contract),
+]
+ROUNDING_TERM_CONTRACTS = [
+    (re.compile(r'^get_rounding_term$'), rounding_term_contract),
+]
